@@ -722,3 +722,13 @@ func SliceReachesPred(from ssa.Value, pred func(ssa.Value) bool, depth int) bool
 	}
 	return false
 }
+
+// HasCallNamed reports whether a call to a function or method of that name lies on the provenance of the value.
+func (s *Sources) HasCallNamed(name string) bool {
+	for c := range s.Calls {
+		if c.Name() == name {
+			return true
+		}
+	}
+	return false
+}
